@@ -67,3 +67,4 @@ def run(ctx):
     r5_order(ctx)
     MP.length_sum(ctx, "C06.R6.sum")
     MP.stream_accounting(ctx, "C06.R6.acct")
+    MP.stream_frame(ctx, "C06.R6.frame")
